@@ -21,7 +21,8 @@ VARIABLES live,        \* threads started and not yet joined (0 = main)
           nuse,        \* number of Use records accepted (vacuity guard)
           pcre, pproc  \* Lagrange polynomials of the probe: the thread that created each, and the processor its precomp field points to
 tvars == <<l, memo, nhit, live, owner, lock, nuse, pcre, pproc>>
-ProcIds == {Tr[i].proc : i \in {j \in 1..Len(Tr) : Tr[j].e \in {"ProcCtor", "ProcDtor", "Use", "PolyNew", "PolyUse"}}}
+ProcIds == {Tr[i].proc : i \in {j \in 1..Len(Tr) : Tr[j].e \in {"ProcCtor", "ProcDtor", "ProcShared", "Use", "PolyNew", "PolyUse"}}}
+Shared == -2       \* owner value of the processor that lives as long as the process (read-only fields for all polynomials; belongs to no thread)
 PolyIds == {Tr[i].poly : i \in {j \in 1..Len(Tr) : Tr[j].e \in {"PolyNew", "PolyUse"}}}
 ThInit == TInit /\ live = {0} /\ owner = [p \in ProcIds |-> -1] /\ lock = -1 /\ nuse = 0 /\ pcre = [p \in PolyIds |-> -1] /\ pproc = [p \in PolyIds |-> -1]
 Keep(vs) == UNCHANGED vs
@@ -29,10 +30,13 @@ ThStart == /\ Ev.e = "ThreadStart" /\ live' = live \cup {Ev.tid} /\ Keep(<<memo,
 ThEnd   == /\ Ev.e = "ThreadEnd" /\ Ev.tid \in live /\ Keep(<<memo, nhit, live, owner, lock, nuse, pcre, pproc>>)
 \* joined threads: every processor they constructed must have been destroyed (released on thread exit)
 ThJoined == /\ Ev.e = "Joined"
-            /\ \A p \in ProcIds : owner[p] = -1 \/ owner[p] = 0 \/ owner[p] > Ev.upto
+            /\ \A p \in ProcIds : owner[p] = -1 \/ owner[p] = Shared \/ owner[p] = 0 \/ owner[p] > Ev.upto
             /\ live' = {t \in live : t = 0 \/ t > Ev.upto} /\ Keep(<<memo, nhit, owner, lock, nuse, pcre, pproc>>)
 PCtor == /\ Ev.e = "ProcCtor" /\ Ev.tid \in live /\ owner[Ev.proc] = -1
          /\ owner' = [owner EXCEPT ![Ev.proc] = Ev.tid] /\ Keep(<<memo, nhit, live, lock, nuse, pcre, pproc>>)
+\* the process-lifetime processor, constructed (ProcCtor) by whichever thread creates the first polynomial and then declared shared: it is never a thread's own
+PShared == /\ Ev.e = "ProcShared" /\ owner[Ev.proc] = Ev.tid
+           /\ owner' = [owner EXCEPT ![Ev.proc] = Shared] /\ Keep(<<memo, nhit, live, lock, nuse, pcre, pproc>>)
 PDtor == /\ Ev.e = "ProcDtor" /\ owner[Ev.proc] = Ev.tid                           \* destroyed by its own thread, at that thread's exit
          /\ owner' = [owner EXCEPT ![Ev.proc] = -1] /\ Keep(<<memo, nhit, live, lock, nuse, pcre, pproc>>)
 \* identity: the processor (and scratch buffer) a thread ran its transforms on is the one that thread constructed
@@ -44,14 +48,14 @@ LRel  == /\ Ev.e = "LockRel" /\ lock = Ev.tid /\ lock' = -1 /\ Keep(<<memo, nhit
 Plan  == /\ Ev.e \in {"PlanCreate", "PlanCreated", "PlanDestroy", "PlanDestroyed"} /\ lock = Ev.tid
          /\ Keep(<<memo, nhit, live, owner, lock, nuse, pcre, pproc>>)
 ThEval == TEval /\ Ev.tid \in live /\ Keep(<<live, owner, lock, nuse, pcre, pproc>>)
-\* a Lagrange polynomial records (in its precomp field) the processor of the thread that creates it ...
-PolyNew == /\ Ev.e = "PolyNew" /\ Ev.tid \in live /\ owner[Ev.proc] = Ev.tid
+\* a Lagrange polynomial records (in its precomp field) a processor: as pinned, that of the thread that creates it; as repaired (fix 0f4e6fe), the shared one ...
+PolyNew == /\ Ev.e = "PolyNew" /\ Ev.tid \in live /\ owner[Ev.proc] \in {Ev.tid, Shared}
            /\ pcre' = [pcre EXCEPT ![Ev.poly] = Ev.tid] /\ pproc' = [pproc EXCEPT ![Ev.poly] = Ev.proc]
            /\ Keep(<<memo, nhit, live, owner, lock, nuse>>)
 \* ... and every operation that writes it reads that processor: it must still be alive and still be its creator's (C16: no use after free over thread create / exit histories)
-PolyUse == /\ Ev.e = "PolyUse" /\ Ev.tid \in live /\ pproc[Ev.poly] = Ev.proc /\ owner[Ev.proc] = pcre[Ev.poly]
+PolyUse == /\ Ev.e = "PolyUse" /\ Ev.tid \in live /\ pproc[Ev.poly] = Ev.proc /\ owner[Ev.proc] \in {pcre[Ev.poly], Shared}
            /\ Keep(<<memo, nhit, live, owner, lock, nuse, pcre, pproc>>)
-ThNext == l <= Len(Tr) /\ l' = l + 1 /\ (ThStart \/ ThEnd \/ ThJoined \/ PCtor \/ PDtor \/ PUse \/ LAcq \/ LRel \/ Plan \/ ThEval \/ PolyNew \/ PolyUse)
+ThNext == l <= Len(Tr) /\ l' = l + 1 /\ (ThStart \/ ThEnd \/ ThJoined \/ PCtor \/ PShared \/ PDtor \/ PUse \/ LAcq \/ LRel \/ Plan \/ ThEval \/ PolyNew \/ PolyUse)
 ThSpec == ThInit /\ [][ThNext]_tvars
 Exercised == (l = Len(Tr) + 1) => nhit >= 1 /\ nuse >= 1
 =============================================================================
